@@ -35,7 +35,6 @@ import multiprocessing as mp
 import random
 
 from mc import env  # noqa: F401
-from mc.env import ENV
 from mc import explore as X
 from mc.worlds import vru as V
 from mc.worlds.vru import VC, VBSState, ClusterLeaveReason, ClusterBreakupReason, ticks
@@ -201,15 +200,11 @@ def discover_roles():
         w = V.ManagerWorld(OWN)
         m = w.mgr
         c0 = dict(vars(m))
-        old = ENV.rand_int
-        ENV.rand_int = staticmethod(lambda a, b: _CAL_OWN_CLUSTER)
-        try:
+        with V.Draws(_CAL_OWN_CLUSTER):
             with w:
                 for g in GHOSTS:
                     m.on_received_vam(V.test_style_vam(g))
                 m.try_create_cluster(lat, lon)
-        finally:
-            ENV.rand_int = staticmethod(old)
         c1 = dict(vars(m))
         leader = m.state is VBSState.VRU_ACTIVE_CLUSTER_LEADER
         with w:
@@ -241,7 +236,8 @@ def invariants(m, ob):
     if info is not None:
         cid, card = info_summary(info)
         if not (isinstance(cid, int) and not isinstance(cid, bool) and 1 <= cid <= 255):
-            out.append(dict(kind="inv_cluster_id_range", state=st, cluster_id=cid, where="container"))
+            # nothing behind such a state is meaningful (the harness cannot even address the cluster on the air)
+            out.append(dict(kind="inv_cluster_id_range", state=st, cluster_id=cid, where="container", _cut=True))
         if not (isinstance(card, int) and not isinstance(card, bool) and card >= 1):
             out.append(dict(kind="inv_cardinality", state=st, cardinality=card, where="container"))
         if is_leader and ob["cid"] != cid:
@@ -453,6 +449,7 @@ class ManagerModel:
         pre_joinphase = w.joinphase
         pre_silent = None if w.leader_rx_k is None else w.k - w.leader_rx_k
         ret = None
+        asked = None
         exc = None
         info_id = None
         sender = None
@@ -518,7 +515,7 @@ class ManagerModel:
                 w.bad.append(dict(kind="wire_dict_divergence", rx=ev[1], who=ev[2], has_cluster_info=ev[1] in RX_WITH_INFO,
                                   state_before=pre["state"], differs=differs, _cut=True))
         w.last = dict(pre_state=pre["state"], ret=ret, exc=exc)
-        return (kind if kind != "rx" else "rx:" + ev[1], pre["state"], post["state"], ret, tuple(sorted(post["notif"])), post["tx"])
+        return (kind if kind != "rx" else "rx:" + ev[1], pre["state"], post["state"], ret, tuple(sorted(post["notif"])), post["tx"], asked)
 
     def _wire_vs_dict(self, w, w_dict, post, pre_silent):
         """W: public observations after the real-coder form (w) and after the hand-built dict form (w_dict), now and -
@@ -892,9 +889,10 @@ def loop_script(names, variant):
 class LoopModel:
     """World B: controlled-schedule BFS over complete VRU services exchanging real VAMs."""
 
-    def __init__(self, names, variant, seed=0):
+    def __init__(self, names, variant, seed=0, idchoice="mid"):
         self.names = tuple(names)
         self.variant = variant
+        self.idchoice = idchoice        # how the leader's cluster-id draw is answered (V.draw_int menu; "mid" -> 7)
         self.script = loop_script(self.names, variant)
         self.rng_seed = seed
         self.stats = collections.Counter()
@@ -980,14 +978,10 @@ class LoopModel:
                 self._guard(w, ev, lambda g=g: w.inject(ev[1], V.encode(V.full_vam(g))))
                 w.recent[ev[1]] = tuple(sorted(dict(w.recent[ev[1]], **{str(g): w.k}).items()))
         elif kind == "create":
-            old = ENV.rand_int
-            ENV.rand_int = staticmethod(lambda a, b: ADV)
-            try:
-                lat, lon = V.pos_of(w.ids[ev[1]])
+            lat, lon = V.pos_of(w.ids[ev[1]])
+            with V.Draws(ADV if self.idchoice == "mid" else self.idchoice):
                 with w:
                     ok = self._guard(w, ev, lambda: w.mgr(ev[1]).try_create_cluster(lat, lon))
-            finally:
-                ENV.rand_int = staticmethod(old)
             if not ok or w.mgr(ev[1]).state is not VBSState.VRU_ACTIVE_CLUSTER_LEADER:
                 w.bad.append(dict(kind="loop_scenario_blocked", step="create", station=ev[1], _cut=True))
         elif kind in ("join", "joinid"):
@@ -1231,11 +1225,12 @@ class LoopModel:
 
 
 def _job_b(args):
-    names, variant, seed = args
-    m = LoopModel(names, variant, seed)
+    names, variant, seed = args[:3]
+    idchoice = args[3] if len(args) > 3 else "mid"
+    m = LoopModel(names, variant, seed, idchoice)
     r = X.bfs(m, 100_000, xcheck_every=499)
     r.violations = []
-    return (names, variant), r, dict(m.stats), m.viol.agg
+    return (names, variant if idchoice == "mid" else variant + "@id=" + idchoice), r, dict(m.stats), m.viol.agg
 
 
 # ------------------------------------------------------------------------------------------------
@@ -1341,11 +1336,13 @@ def run(ctx):
         runs.append([m0.apply(w0, e) for e in probe_hist] + [m0.canon(w0)])
     if runs[0] != runs[1]:
         raise HarnessError("replaying one history twice gave different observations")
-    for h in (probe_hist[:4], [("create", "present", 1), ("rx", "joinreq", "O", "dict"), ("breakup", CPM), ("rx", "info0", "O", "dict")]):
+    for h in (probe_hist[:4], [("create", "present", "lo"), ("rx", "joinreq", "O", "dict"), ("breakup", CPM), ("rx", "info0", "O", "dict")]):
         wx = X.rebuild(m0, h)
         V.fast_copy_selfcheck(wx.mgr, wx.now)
 
     jobs_b = [(names, v, ctx.seed) for names in (("A", "B"), ("A", "B", "C")) for v in LOOP_VARIANTS]
+    # the closed loop also with the boundary cluster ids of the leader's draw (resolved against the requested bounds)
+    jobs_b += [(("A", "B"), v, ctx.seed, c) for v in ("breakup", "breakup_during_join") for c in ("lo", "hi")]
     jobs_s = []
     for what, hi in SWEEPS.items():
         for lo in range(0, hi + 1, 8):
@@ -1455,7 +1452,8 @@ def replay(path):
         m = ManagerModel(0, 10**9)
     else:
         _, names, variant = part.split(":")
-        m = LoopModel(tuple(names), variant)
+        variant, _, idchoice = variant.partition("@id=")
+        m = LoopModel(tuple(names), variant, 0, idchoice or "mid")
     w = m.init()
     for i, ev in enumerate(hist):
         before = {s: a[0] for s, a in m.viol.agg.items()}
